@@ -123,7 +123,7 @@ fn canon<C: KeyColl>(ex: &KeyExec<C>, t: i32, r: i32) -> Vec<u8> {
     // number of physically stored entries first (used by the distinct-case rule)
     c.insert(0, n.min(255) as u8);
     c.push(0xFD);
-    let mut live: Vec<(i32, i32)> = ex.model.iter().filter(|e| e.1 > t).map(|e| (e.0, e.1 - t)).collect();
+    let mut live: Vec<(i32, i32)> = ex.model.iter().filter(|e| e.1 > t).map(|e| (e.0, e.1.saturating_sub(t))).collect();
     live.sort();
     for (k, d) in live {
         c.push(k as u8);
@@ -204,6 +204,8 @@ fn key_closure<C: KeyColl>(cfg: &Cfg, rep: &mut Report) {
     };
     let max_states = cfg.num("max_states", 400_000) as usize;
     let do_export = judge.export || judge.capacity;
+    let fault_mode = cfg.flag("fault");
+    let mon = if fault_mode { KMon::none() } else { mon };
     let mut all_exhaustive = true;
     for (si, &(u, r, hint)) in sets.iter().enumerate() {
         if emit_for.is_none() && si as u64 % cfg.nshards != cfg.shard {
@@ -239,6 +241,15 @@ fn key_closure<C: KeyColl>(cfg: &Cfg, rep: &mut Report) {
                             println!("OP {}", o.line());
                         }
                         return;
+                    }
+                }
+                if fault_mode && emit_for.is_none() {
+                    let path = path_of(&nodes, idx);
+                    let ctor = format!("hint={}", hint);
+                    for op in ops.iter() {
+                        let mut h = path.clone();
+                        h.push(*op);
+                        crate::fault::fault_history_from::<KeyExec<C>>(&ctor, &h, rep, hist_base | idx as u64, None, path.len());
                     }
                 }
                 // tick: no library call, only the clock moves
